@@ -125,24 +125,27 @@ class AstPrinter(AstVisitor):
         self.append('}', node)
 
     def visit_OrNode(self, node: mparser.OrNode) -> None:
-        node.left.accept(self)
+        self.maybe_parentheses(node, node.left, precedence_level(node.left) < 2)
         self.append_padded('or', node)
         node.lineno = self.curr_line or node.lineno
-        node.right.accept(self)
+        self.maybe_parentheses(node, node.right, precedence_level(node.right) < 3)
 
     def visit_AndNode(self, node: mparser.AndNode) -> None:
-        node.left.accept(self)
+        self.maybe_parentheses(node, node.left, precedence_level(node.left) < 3)
         self.append_padded('and', node)
         node.lineno = self.curr_line or node.lineno
-        node.right.accept(self)
+        self.maybe_parentheses(node, node.right, precedence_level(node.right) < 4)
 
     def visit_ComparisonNode(self, node: mparser.ComparisonNode) -> None:
-        node.left.accept(self)
+        self.maybe_parentheses(node, node.left, precedence_level(node.left) < 5)
         self.append_padded(node.ctype, node)
         node.lineno = self.curr_line or node.lineno
-        node.right.accept(self)
+        self.maybe_parentheses(node, node.right, precedence_level(node.right) < 5)
 
     def maybe_parentheses(self, outer: mparser.BaseNode, inner: mparser.BaseNode, parens: bool) -> None:
+        # The AstPrinter does not print ParenthesizedNode, so every operand that
+        # binds less tightly than its position requires (see Parser.e1 .. e10)
+        # has to be parenthesized here.
         if parens:
             self.append('(', inner)
         inner.accept(self)
@@ -156,12 +159,14 @@ class AstPrinter(AstVisitor):
         self.maybe_parentheses(node, node.left, prec > prec_left)
         self.append_padded(node.operator.value, node)
         node.lineno = self.curr_line or node.lineno
-        self.maybe_parentheses(node, node.right, prec > prec_right or (prec == prec_right and node.operation in {'-', '/', '%'}))
+        # The operators are left associative and not all of them are
+        # associative ('/' and '%' truncate, '+' also appends to arrays)
+        self.maybe_parentheses(node, node.right, prec >= prec_right)
 
     def visit_NotNode(self, node: mparser.NotNode) -> None:
         node.lineno = self.curr_line or node.lineno
         self.append_padded('not', node)
-        node.value.accept(self)
+        self.maybe_parentheses(node, node.value, precedence_level(node.value) < 8)
 
     def visit_CodeBlockNode(self, node: mparser.CodeBlockNode) -> None:
         node.lineno = self.curr_line or node.lineno
@@ -170,7 +175,7 @@ class AstPrinter(AstVisitor):
             self.newline()
 
     def visit_IndexNode(self, node: mparser.IndexNode) -> None:
-        node.iobject.accept(self)
+        self.maybe_parentheses(node, node.iobject, precedence_level(node.iobject) < 8)
         node.lineno = self.curr_line or node.lineno
         self.append('[', node)
         node.index.accept(self)
@@ -178,7 +183,7 @@ class AstPrinter(AstVisitor):
 
     def visit_MethodNode(self, node: mparser.MethodNode) -> None:
         node.lineno = self.curr_line or node.lineno
-        node.source_object.accept(self)
+        self.maybe_parentheses(node, node.source_object, precedence_level(node.source_object) < 8)
         self.append('.' + node.name.value + '(', node)
         node.args.accept(self)
         self.append(')', node)
@@ -225,7 +230,7 @@ class AstPrinter(AstVisitor):
     def visit_UMinusNode(self, node: mparser.UMinusNode) -> None:
         node.lineno = self.curr_line or node.lineno
         self.append_padded('-', node)
-        node.value.accept(self)
+        self.maybe_parentheses(node, node.value, precedence_level(node.value) < 8)
 
     def visit_IfNode(self, node: mparser.IfNode) -> None:
         node.lineno = self.curr_line or node.lineno
@@ -235,7 +240,7 @@ class AstPrinter(AstVisitor):
 
     def visit_TernaryNode(self, node: mparser.TernaryNode) -> None:
         node.lineno = self.curr_line or node.lineno
-        node.condition.accept(self)
+        self.maybe_parentheses(node, node.condition, precedence_level(node.condition) < 2)
         self.append_padded('?', node)
         node.trueblock.accept(self)
         self.append_padded(':', node)
